@@ -988,6 +988,26 @@ fn observe<I: Drive>(
     }
 }
 
+/// an owned axis array with the given logical contents whose elements are not adjacent in memory
+/// (`lay` 1: every second element of a larger allocation, 2: stored back to front, stride -1)
+fn axis_array(values: &[f64], lay: u8) -> Array1<f64> {
+    match lay {
+        1 => {
+            let mut big = Array1::from_elem(values.len() * 2, f64::from_bits(POISON));
+            for (i, v) in values.iter().enumerate() {
+                big[2 * i] = *v;
+            }
+            big.slice_move(ndarray::s![..;2])
+        }
+        2 => {
+            let mut r: Array1<f64> = values.iter().rev().copied().collect();
+            r.invert_axis(Axis(0));
+            r
+        }
+        _ => Array1::from(values.to_vec()),
+    }
+}
+
 fn build_1d<const MIN: usize, D>(
     case: &Case,
     data: Array<f64, D>,
@@ -1003,7 +1023,7 @@ where
     };
     let mut builder = Interp1DBuilder::new(data);
     if let Some(x) = &case.x {
-        builder = builder.x(Array1::from(x.clone()));
+        builder = builder.x(axis_array(x, case.call.qlay));
     }
     builder.strategy(rec).build()
 }
@@ -1024,10 +1044,10 @@ where
     };
     let mut builder = Interp2DBuilder::new(data);
     if let Some(x) = &case.x {
-        builder = builder.x(Array1::from(x.clone()));
+        builder = builder.x(axis_array(x, case.call.qlay));
     }
     if let Some(y) = &case.y {
-        builder = builder.y(Array1::from(y.clone()));
+        builder = builder.y(axis_array(y, (case.call.qlay + 1) % 3));
     }
     builder.strategy(rec).build()
 }
